@@ -22,14 +22,31 @@ try:
     LEHMER_FRAG_STATUS = translate_c12_r4.generate(core.REPO, os.path.join(core.COQ, "gen"))
 except Exception as _ex:
     LEHMER_FRAG_STATUS = "unparsed generator-failed: %s" % str(_ex)[:200]
+# coq/gen/RootNewtonSrc.v (round 5): the token text of fix_sqrt_error! / fix_cbrt_error! / impl_rootrem_using_normalized! and of
+# normalized_sqrt_rem / normalized_cbrt_rem for u16..u128 of base/src/ring/root.rs; Int/GrlRootSrcTie.v proves the text the models
+# were transcribed from equal to it (change detector for the bodies the class-certificate theorems are about)
+try:
+    import translate_c12_r5
+    NEWTON_SRC_STATUS = translate_c12_r5.generate(core.REPO, os.path.join(core.COQ, "gen"))
+except Exception as _ex:
+    NEWTON_SRC_STATUS = "unparsed generator-failed: %s" % str(_ex)[:200]
+# coq/gen/GrlDispatchGen.v (round 5): the size-dispatch tables of integer/src/gcd_ops.rs (Gcd, 4 x ExtendedGcd), log.rs
+# (TypedReprRef::log) and root_ops.rs (nth_root's match on n); Int/GrlDispatch.v proves the hand-written dispatch = the tables
+try:
+    DISPATCH_STATUS = translate_c12_r5.generate_dispatch(core.REPO, os.path.join(core.COQ, "gen"))
+except Exception as _ex:
+    DISPATCH_STATUS = "unparsed generator-failed: %s" % str(_ex)[:200]
 
 
 def extra_phase(tier, seed, exes, oracle):
     word = ROOT_TABS_STATUS.split(" ", 1)[0]
     word4 = LEHMER_FRAG_STATUS.split(" ", 1)[0]
+    word5 = NEWTON_SRC_STATUS.split(" ", 1)[0]
+    word6 = DISPATCH_STATUS.split(" ", 1)[0]
     res = {
         "evaluations": 0,
-        "hist": {"translator_c12:RootTabs:" + word: 1, "translator_c12:LehmerFrag:" + word4: 1},
+        "hist": {"translator_c12:RootTabs:" + word: 1, "translator_c12:LehmerFrag:" + word4: 1,
+                 "translator_c12:RootNewtonSrc:" + word5: 1, "translator_c12:GrlDispatchGen:" + word6: 1},
         "nontrivial": [],
         "samples": [{"fragment": "coq/gen/RootTabs.v (tools/translate_c12_r3.py from base/src/ring/root.rs, integer/src/gcd/lehmer.rs)",
                      "status": ROOT_TABS_STATUS,
@@ -38,6 +55,14 @@ def extra_phase(tier, seed, exes, oracle):
                     {"fragment": "coq/gen/LehmerFrag.v (tools/translate_c12_r4.py from integer/src/gcd/lehmer.rs)",
                      "status": LEHMER_FRAG_STATUS,
                      "tied_by": "C12_lehmer_guess_loop_is_source, C12_sd_lin_is_source, C12_ud_lin_is_source, C12_lstep_top_is_source, C12_gen_coeff_limit_is_model" if word4 == "ok"
+                                else "correspondence run only (source not parsed; previous copy marked STALE)"},
+                    {"fragment": "coq/gen/RootNewtonSrc.v (tools/translate_c12_r5.py from base/src/ring/root.rs: token text of the correction macros, the normalising wrapper and the u16..u128 normalized_sqrt_rem / normalized_cbrt_rem bodies)",
+                     "status": NEWTON_SRC_STATUS,
+                     "tied_by": "C12_root_newton_src_pinned (change detector; the semantic tie is asis=same of psqrt*/pcbrt*/psweep32/psweep64)" if word5 == "ok"
+                                else "correspondence run only (source not parsed; previous copy marked STALE)"},
+                    {"fragment": "coq/gen/GrlDispatchGen.v (tools/translate_c12_r5.py from integer/src/gcd_ops.rs, log.rs, root_ops.rs: which kernel for which operand sizes, operand order, cofactor swap, nth_root's match on n)",
+                     "status": DISPATCH_STATUS,
+                     "tied_by": "C12_gcd_dispatch_is_source, C12_gcd_ext_dispatch_is_source (4 ownership forms), C12_log_dispatch_is_source, C12_nth_dispatch_is_source, C12_nth_root_asis_is_table; Int/GrlDispatchC19.v instantiates them with C19's wr_gcd / wr_gcdext / wr_ilog / wr_nthroot" if word6 == "ok"
                                 else "correspondence run only (source not parsed; previous copy marked STALE)"}],
         "failures": [],
     }
@@ -123,7 +148,7 @@ def canon_answer(ans):
         return "panic nan"  # log2_bounds(NaN): both builds panic, with different messages
     return ans
 
-LEVEL_TEXT = ("Machine-checked Coq theorems (122 pinned in coq/props/C12.v, all inputs unless a finite domain is stated): complete "
+LEVEL_TEXT = ("Machine-checked Coq theorems (150 pinned in coq/props/C12.v, all inputs unless a finite domain is stated): complete "
               "certificates (a checked gcd/Bezout, root, root-with-remainder, integer-logarithm or remove answer IS the gcd / truncated "
               "root / floor logarithm / full power); as-is models proved against them: the Karatsuba square root kernel of "
               "integer/src/root.rs (sqrt_rem / sqrt_rem_42: recursive split, division by s1 with the r1 carry trick, q == B overflow, odd "
@@ -149,17 +174,31 @@ LEVEL_TEXT = ("Machine-checked Coq theorems (122 pinned in coq/props/C12.v, all 
               "for every input under the explicit contract 'f32::log2 is within one ulp' (satisfiable: correctly rounded log2), without the "
               "interval tactic; FBig / RBig / IBig log2_bounds on IEEE binary32 operations (Flocq) cited from C14; the bracket decision "
               "procedure that judges log2_bounds answers proved sound. Every implementation answer (std and no_std build) is decided per "
-              "instance; the word-level models also run at w = 32 against the force_bits=32 build.")
+              "instance; the word-level models also run at w = 32 against the force_bits=32 build."
+              " ROUND 5: NO OVERSHOOT of the table + Newton estimates of base/src/ring/root.rs: for EVERY u32 value sqrt_rem / cbrt_rem as "
+              "written answer the specified pair and never panic, with at most 2 / 3 corrections (C12_prim_sqrt_rem_u32_total, "
+              "C12_prim_cbrt_rem_u32_total; class x monotonicity: the estimate is a step function whose stages are monotone once the earlier "
+              "stages are fixed, all 49152 / 57344 classes of the high half checked by computation through a proved interval cover); u64: the "
+              "same for every n of a class X = n >> 32 under a decidable class certificate (C12_nsqrt64_class_total, C12_ncbrt64_class_total), "
+              "evaluated in Coq on 2 x 4096 classes spread over the range plus the classes on both sides of every lookup-table index change, and by the run on swept windows; the size dispatch of gcd_ops.rs / "
+              "log.rs / root_ops.rs = tables regenerated from the source, for any kernels (C12_*_dispatch_is_source; one table shared with "
+              "C19); the cofactor BUFFER update t0 += q*t1 of the Euclidean step of gcd_ext_in_place (lengths t0_len, t1_len, q_lo.len(), the "
+              "carry into the upper words: the lines repaired by 1be8c4c) = t0 + q*t1 with the exact new length for EVERY relation of the "
+              "lengths, and it answers whenever the sum fits the buffer and the carry a word (C12_ebuf_step_correct / _total); the source "
+              "text of the Newton routines is pinned token by token (C12_root_newton_src_pinned).")
 LEVEL_NOTE = ("Partial where said: the Karatsuba kernel takes div_rem_in_place, sqr and DoubleWord::sqrt_rem through their contracts "
               "(C02 / C01 / primitive roots) and models slices as values with lengths; in gcd_ext_in_place the buffer bookkeeping of the "
               "cofactors (t0_len / t1_len, the carry of t0 += q*t1 in the Euclidean step) is modelled at value level with capacity checks "
-              "only - finding F09 (a cofactor word overwritten by that carry, wrong Bezout coefficients) was in exactly this part, found by "
-              "the correspondence run and repaired in /repo 1be8c4c; its pre-fix arithmetic is modelled and refuted; for u32/u64 primitive "
-              "roots only soundness of an answer is proved for all inputs, that the Newton estimate never overshoots (no panic) is compared "
-              "per instance (2^32 / 2^64 inputs, no analytic error bound attempted). The std log2 estimator depends on libm's f32::log2 "
+              "(round 4) and as a buffer with lengths (round 5) - finding F09 (a cofactor word overwritten by that carry, wrong Bezout coefficients) was in exactly this part, found by "
+              "the correspondence run and repaired in /repo 1be8c4c; its pre-fix arithmetic is modelled and refuted; the buffer model ebuf_step of round 5 is a transcription "
+              "without its own hook (tied through gcd_ext answers and the F09 witness only), its no-panic side conditions (sum fits, carry "
+              "fits a word when the quotient has a top word) are stated, not derived from the cofactor bounds; for u64 primitive roots the "
+              "no-overshoot is proved per class under a certificate that Coq evaluates on a sample (2 x 4096 classes) - all 3 * 2^30 classes "
+              "are not enumerated in Coq (a native sweep of the real code over every class end and every perfect square +-{0,1,2} found no "
+              "failure; the run sweeps windows), no analytic error bound; u128 roots: soundness only. The std log2 estimator depends on libm's f32::log2 "
               "through the stated one-ulp contract (observed, not proved, for the libm in use); the floating-point estimate inside ilog is "
               "checked per instance (the ilog loops are proved for every estimate).")
-TECHNIQUE = "Coq proof (certificate completeness + as-is algorithm models at value and word level, loop invariants, refinement, fragments regenerated from the source) + extracted-checker correspondence run on two word sizes"
+TECHNIQUE = "Coq proof (certificate completeness + as-is algorithm models at value and word level, loop invariants, refinement, class x monotonicity interval covers decided by computation, fragments and dispatch tables regenerated from the source) + extracted-checker correspondence run on two word sizes"
 RULE = ("cases = operation x call form x operands from: word-count classes {0,1,2,3,4,5,8,T-1,T,T+1,300+-1} x bit patterns (all-ones, 2^k, "
         "2^k+-1, trailing zero words, top word 1/MAX, sparse) x signs; gcd pairs incl. zero/equal/multiple/shared factor/Fibonacci/huge "
         "quotient; radicands 0,1,r^n,r^n+-1 for n in {1,2,3,4,5,7,bits-1,bits,bits+1,bits/3+1,huge}; the Karatsuba kernel through its "
@@ -179,19 +218,22 @@ RULE = ("cases = operation x call form x operands from: word-count classes {0,1,
         "coefficients from exact Euclidean prefixes, outside-contract inputs), lext (carries with all-ones words and COEFF_LIMIT "
         "coefficients): for these a difference to the extracted model is a FAILURE; gcd pairs sparse-vs-all-ones (finding F09); extra "
         "phase: 700 (quick) / 20000 cases of all word-level ops, gcd, gcd_ext, sqrt_rem against the force_bits=32 build with the models "
-        "at w = 32.")
+        "at w = 32. Round 5: class sweeps psweep32 (EVERY value of 64 / 1024 consecutive classes of the high half of u32) and psweep64 "
+        "(the real u64 routines at both ends of 2048 / 32768 consecutive classes and at the perfect squares / cubes inside, +-1) over the "
+        "first / last classes, the lookup-table index changes, the adjust boundary and random windows; the oracle evaluates the extracted "
+        "class certificates on the same classes (asis = certificate agrees with the real code).")
 EXPLANATION = ("Theorems in coq/props/C12.v; the oracle evaluates the extracted certificates/specs on every implementation answer "
                "(harness/src/bin/c12.rs calls every API of observe_at in all call forms, the sqrt_rem_kernel hook and the Lehmer kernel "
                "hooks) and the extracted as-is models (value level and word level, at the word size of the build) for the fidelity "
                "statistic; for the hook-level Lehmer ops a model difference is a failure.")
 TRUSTED_BASE = [
-    "Coq 8.16.1 kernel (coqc; vm_compute used only for the finite theorems - no_std log2 table and primitive roots, domain 0..65535 stated - and closed examples)",
+    "Coq 8.16.1 kernel (coqc; vm_compute used only for the finite theorems - no_std log2 table and primitive roots, domains 0..65535 / 0..2^32-1 (through 49152 + 57344 classes) / 2 x 4096 sampled u64 classes stated - and closed examples)",
     "extraction: ExtrOcamlBasic + ExtrOcamlZBigInt + coq/extract/FastZ.v directives (Z.gcd/Z.sqrt/Z.pow/Z.log2/shifts -> zarith)",
     "OCaml 4.13.1 + zarith 1.12, oracle/common.ml, oracle/driver_c12.ml (decoding of answers, choice of bracket precision); Rust harness harness/src/bin/c12.rs; hooks dashu_int::verif_hooks::{sqrt_rem_kernel, lehmer_guess, lehmer_guess_dword, lehmer_top_word, lehmer_top_dword, lehmer_step, lehmer_ext_step} (cfg(dashu_verif), add-only wrappers of the private functions)",
     "contracts used by the Karatsuba model: div::div_rem_in_place (C02), sqr::sqr (C01), DoubleWord::sqrt_rem (primitive roots); value-level reading of word slices (C01/C02/C09 prove the word layer)",
-    "Lehmer gcd_ext: the cofactor buffers (t0_len / t1_len, carries of the multi-word updates) are modelled as values with capacity checks; the no-overshoot of the u32/u64 Newton estimates is compared per instance",
+    "Lehmer gcd_ext: the cofactor buffers (t0_len / t1_len, carries of the multi-word updates) are modelled as values with capacity checks; the round-5 buffer model of the Euclidean step has no hook of its own; the no-overshoot of the u64 Newton estimates is proved per class under a certificate evaluated on samples (Coq) and swept windows (run)",
     "std log2 estimator: the contract 'f32::log2 of a positive binary32 is within one ulp' is assumed of libm (theorems C12_std_log2_*), its behaviour is observed per instance; C14's lg_contract likewise",
-    "tools/translate.py (LOG2_TAB), tools/translate_c12_r3.py (RSQRT_TAB, RCBRT_TAB, guard constants, MIN_DWORD_GUESS_LEN) and tools/translate_c12_r4.py (loop bodies of lehmer_guess / lehmer_guess_dword, linear forms of lehmer_step / lehmer_ext_step, COEFF_LIMIT): small readers of the Rust sources; the harness constant MIN_DWORD_GUESS_LEN = 300 of the op liter",
+    "tools/translate.py (LOG2_TAB), tools/translate_c12_r3.py (RSQRT_TAB, RCBRT_TAB, guard constants, MIN_DWORD_GUESS_LEN) and tools/translate_c12_r5.py (token text of the Newton routines; dispatch tables of gcd_ops.rs / log.rs / root_ops.rs), tools/translate_c12_r4.py (loop bodies of lehmer_guess / lehmer_guess_dword, linear forms of lehmer_step / lehmer_ext_step, COEFF_LIMIT): small readers of the Rust sources; the harness constant MIN_DWORD_GUESS_LEN = 300 of the op liter",
 ]
 ASSUMPTIONS = [
     "UBig::from_words / as_words / IBig::from_parts / as_sign_words transport values faithfully",
@@ -685,8 +727,28 @@ def sweep_cases(tier):
     return out
 
 
+def root_sweep_cases(rng, tier):
+    """round 5: class sweeps of the primitive u32 / u64 roots (harness ops psweep32 / psweep64): windows of classes of the
+    high half - the first and last classes of the normalised range, the places where the lookup-table index changes
+    (i << 25 for u64, i << 9 for u32), the `adjust` boundary of the cube root, and random windows"""
+    out = []
+    w64 = 0x800 if tier != "thorough" else 0x8000
+    w32 = 0x40 if tier != "thorough" else 0x400
+    nrand = 10 if tier != "thorough" else 400
+    for kind, lo64, lo32 in (("sqrt", 1 << 30, 1 << 14), ("cbrt", 1 << 29, 1 << 13)):
+        starts64 = [lo64, (1 << 32) - w64, (1 << 31) - w64 // 2, (1 << 30) - w64 // 2 if kind == "cbrt" else (3 << 30) - w64 // 2]
+        starts64 += [((i << 25) - w64 // 2) for i in rng.choice([[33, 47, 64, 96, 127], [40, 65, 90, 111, 126]])]
+        starts64 += [rng.range(lo64, (1 << 32) - w64) for _ in range(nrand)]
+        out += ["psweep64 %s %x %x" % (kind, max(lo64, x), w64) for x in starts64]
+        starts32 = [lo32, (1 << 16) - w32, (1 << 15) - w32 // 2] + [rng.range(lo32, (1 << 16) - w32) for _ in range(nrand // 2)]
+        out += ["psweep32 %s %x %x" % (kind, x, w32) for x in starts32]
+    return out
+
+
 def gen_cases(rng, tier, n):
     out = sweep_cases(tier) if n >= 5000 else []
+    if n >= 5000:
+        out += root_sweep_cases(rng.fork("rootsweep"), tier)
     n += len(out)
     while len(out) < n:
         k = rng.below(109)
